@@ -12,15 +12,25 @@ REL = "cryocat/cryomask.py"
 KINDS = ["sphere", "cylinder", "ellipsoid", "s_shell", "e_shell"]
 FNS = ["union", "intersection", "subtraction", "difference"]
 BIN_DTYPES = ["float64", "float32", "bool", "uint8", "int8"]
+# Tolerances (H4: each follows the conditioning of what is compared; worst legitimate input = box 48^3, sigma = 3, kernel 25^3).
+# SOFT_TOL: the real output against skimage.filters.gaussian(model's pre-blur mask, same sigma) - the SAME library routine on identical input,
+#   so the expected difference is 0; for the range check a weighted mean with float weights (|sum - 1| <= 3 passes * 25 terms * 2^-53 ~ 1e-14)
+#   of values in [0,1] can exceed [0,1] by that much.  1e-12 leaves two orders of magnitude.
+# KERNEL_TOL: the real output (three separable passes, float64) against the Lean model (one direct sum of <= 25^3 = 15625 non-negative products of
+#   values <= 1): both sums have relative error <= n * 2^-53 <= 15625 * 1.1e-16 = 1.7e-12, the normalisation sums add 2 * 25 * 2^-53; masks are
+#   float64 or bool (bool -> float64 exactly), never float32.  1e-10 leaves a factor 50.
+# CORE_TOL: the bound 1e-3 named by the statement, compared as written.
 SOFT_TOL = 1e-12      # float noise allowed around [0,1] and between impl and gaussian(model pre-blur mask)
 KERNEL_TOL = 1e-10    # impl vs the Lean kernel model (direct 3-D sum vs three separable passes)
 CORE_TOL = 1e-3       # the property's bound for the core of an outwards-blurred mask (Lean: coreTol)
 
-RULE = ("shape cases: constructor calls (spherical/cylindrical/ellipsoid/_shell masks) on non-cubic boxes 6..16 (quick) / 6..48 (thorough) per axis "
+RULE = ("shape cases: constructor calls (spherical/cylindrical/ellipsoid/_shell masks) on non-cubic boxes 6..16 (quick; plus one hard and one soft box "
+        "with sizes up to 48 in every run) / 6..48 (thorough) per axis "
         "(even sizes for ellipsoids), centre default or anywhere in the box incl. faces, radii/heights from 1 to beyond the box (spheres also "
         "quarter/half-integer radii; dedicated streams: radius >= max(box) with a corner centre, heights = 3 mod 4, outward blurs of small ellipsoids "
-        "with sigma >= 1.5), Gaussian width 0 or {0.5,..,3} with both edge modes; ~30 % of the keywords whose value is the default are omitted; every "
-        "voxel is compared. name cases: parse_shape_string + generate_mask (leading zeros, given/default size and expansion). algebra cases: "
+        "with sigma >= 1.5), Gaussian width 0, {0.5,..,3} or a decimal with 1-3 places in (0,3] with both edge modes; ~30 % of the keywords whose value "
+        "is the default are omitted; arguments written as lists, tuples, numpy arrays, scalars (cubic boxes, equal radii) or numpy scalars, angles "
+        "explicitly None / zero; every voxel is compared. name cases: parse_shape_string + generate_mask (leading zeros, given/default size and expansion). algebra cases: "
         "union/intersection/subtraction/difference of 1..5 binary masks of dtype float64/float32/bool/uint8/int8 (also mixed, also built by the "
         "library's constructors) or soft float64/float32 masks. session cases: several calls in ONE process that share caller-owned objects "
         "(the same list and ndarrays through all four functions, rewritten in place between calls; the same shape name for different box sizes; "
@@ -32,8 +42,10 @@ ASSUMPTIONS = [
     "for ellipsoids only the voxels exactly on the surface (rational sum == 1) whose float64 sum (z+y)+x of correctly rounded quotients exceeds 1 are "
     "excluded as ties (computed per case, counted in the histograms)",
     "skimage.filters.gaussian is an external service: soft masks are compared (a) with gaussian(model's pre-blur mask) computed by the same library and "
-    "(b) at sampled voxels with the Lean kernel model (radius int(4 sigma + 0.5), weights exp(-t^2/2 sigma^2)/sum, mode nearest); the kernel is probed "
-    "each run: non-negative, unit sum, support, symmetry, and weight beyond 5 sigma < 1e-3 (the hypothesis of soft_sphere_core_within_tol)",
+    "(b) at sampled voxels with the Lean kernel model gaussW (radius int(4 sigma + 0.5), weights exp(-0.5/sigma^2 t^2)/sum, mode nearest; Float.exp in the "
+    "driver, Real.exp in the theorems); the library's kernel is probed each run on the half-integer widths and on three random decimal widths: non-negative, "
+    "unit sum, support, symmetry, product of the model's 1-D weights. The weight beyond 5 sigma <= 1e-3 is PROVED for the model kernel and every width in (0,3] "
+    "(gaussian_kernel_tail); the probe of the same quantity on the library's kernel is a cross-check, no longer a hypothesis",
     "numpy float64 +,*,- and np.clip are IEEE-754 and equal Lean Float (compared bit for bit on every algebra case); bool/uint8/int8/float32 inputs "
     "convert exactly to float64",
     "'never modify their inputs' is a runtime aliasing fact: validated on every algebra call by comparing values, dtype and list identity before/after, "
@@ -66,7 +78,16 @@ DOC_SIG = {'parse_shape_string': ['shape_string'],
  'ellipsoid_shell_mask': ['mask_size', 'shell_thickness', 'radii', 'center=None', 'gaussian=0.0', 'angles=None', 'output_name=None'],
  'ellipsoid_mask': ['mask_size', 'radii=None', 'center=None', 'gaussian=0', 'output_name=None', 'angles=None', 'gaussian_outwards=True'],
  'preprocess_params': ['radius', 'gaussian', 'gaussian_outwards'],
- 'cryomap_read': ['input_map', 'transpose=True', 'data_type=None']}
+ 'cryomap_read': ['input_map', 'transpose=True', 'data_type=None'],
+ 'write_out': ['input_mask', 'output_name'],
+ 'cryomap_rotate': ['input_map',
+                    'rotation=None',
+                    'rotation_angles=None',
+                    "coord_space='zxz'",
+                    'transpose_rotation=False',
+                    'degrees=True',
+                    'spline_order=3',
+                    'output_name=None']}
 DOC_BODY = {'parse_shape_string': ["v0={'sphere':'^sphere_r(\\\\d+)$','cylinder':'^cylinder_r(\\\\d+)_h(\\\\d+)$','s_shell':'^s_shell_r(\\\\d+)_s(\\\\d+)$','ellipsoid':'^ellipsoid_rx(\\\\d+)_ry(\\\\d+)_rz(\\\\d+)$','e_shell':'^e_shell_rx(\\\\d+)_ry(\\\\d+)_rz(\\\\d+)_s(\\\\d+)$'}",
                         'for:(v1,v2):v0.items()',
                         'v3=re.match(v2,shape_string)',
@@ -75,7 +96,7 @@ DOC_BODY = {'parse_shape_string': ["v0={'sphere':'^sphere_r(\\\\d+)$','cylinder'
                         'return(v1,v4)',
                         'end',
                         'end',
-                        'raiseValueError(f"String\'{shape_string}\'doesnotmatchanyknownshapepattern.")'],
+                        'raiseValueError'],
  'generate_mask': ['v0,v1=parse_shape_string(mask_shape)',
                    'if:mask_sizeisNone',
                    'mask_size=2*np.max(v1)+mask_expansion',
@@ -186,11 +207,11 @@ DOC_BODY = {'parse_shape_string': ["v0={'sphere':'^sphere_r(\\\\d+)$','cylinder'
                         'if:len(v1)==1',
                         'returnnp.full((3,),v1).astype(int)',
                         'else:',
-                        "raiseValueError('Thesizehavetobeasinglenumberorhavetohavelengthof3!')",
+                        'raiseValueError',
                         'end',
                         'end',
                         'else:',
-                        'if:isinstance(v1,(float,int))',
+                        'if:isinstance(v1,(float,int,np.integer,np.floating))',
                         'returnnp.full((3,),v1).astype(int)',
                         'end',
                         'end',
@@ -202,7 +223,7 @@ DOC_BODY = {'parse_shape_string': ["v0={'sphere':'^sphere_r(\\\\d+)$','cylinder'
                         'v3=v0(reference_size)',
                         'v2=v3//2',
                         'else:',
-                        "raiseValueError('Eitherinput_sizeorreferene_sizehavetobespecified')",
+                        'raiseValueError',
                         'end',
                         'end',
                         'returnv2'],
@@ -252,7 +273,7 @@ DOC_BODY = {'parse_shape_string': ["v0={'sphere':'^sphere_r(\\\\d+)$','cylinder'
                   "if:input_map.endswith('.em')",
                   'v3=emfile.read(input_map)[1]',
                   'else:',
-                  "raiseValueError('Theinputmapfilename',input_map,'isneitheremormrcfile!')",
+                  'raiseValueError',
                   'end',
                   'end',
                   'if:transpose',
@@ -262,14 +283,41 @@ DOC_BODY = {'parse_shape_string': ["v0={'sphere':'^sphere_r(\\\\d+)$','cylinder'
                   'if:isinstance(input_map,np.ndarray)',
                   'v3=np.array(input_map)',
                   'else:',
-                  "raiseValueError(f'Inputmapmustbepathtovalidfileornparray')",
+                  'raiseValueError',
                   'end',
                   'end',
                   'v3=np.array(v3,copy=True)',
                   'if:data_typeisnotNone',
                   'v3=v3.astype(data_type)',
                   'end',
-                  'returnv3']}
+                  'returnv3'],
+ 'write_out': ['if:output_nameisnotNone', 'cryomap.write(input_mask,output_name,data_type=np.single)', 'end'],
+ 'cryomap_rotate': ['input_map=read(input_map)',
+                    'v0=np.eye(4)',
+                    'v1=np.asarray(input_map.shape)//2',
+                    'v0[:3,-1]=v1',
+                    'v2=np.eye(4)',
+                    'if:rotationisnotNone',
+                    'if:transpose_rotation',
+                    'v2[0:3,0:3]=rotation.as_matrix().T',
+                    'else:',
+                    'v2[0:3,0:3]=rotation.as_matrix()',
+                    'end',
+                    'else:',
+                    'if:rotation_anglesisnotNone',
+                    'v3=srot.from_euler(coord_space,rotation_angles,degrees=degrees)',
+                    'v2[0:3,0:3]=v3.as_matrix().T',
+                    'else:',
+                    'raiseValueError',
+                    'end',
+                    'end',
+                    'v4=v0@v2@np.linalg.inv(v0)',
+                    'v5=np.empty(input_map.shape)',
+                    'affine_transform(input=input_map,output=v5,matrix=v4,order=spline_order)',
+                    'if:output_nameisnotNone',
+                    'write(v5,output_name,data_type=np.single)',
+                    'end',
+                    'returnv5']}
 DOC_PATTERNS = ['sphere',
  '^sphere_r(\\d+)$',
  'cylinder',
@@ -288,6 +336,10 @@ FUNCS = [  # (key used in Gen/C13.lean, file, function)
     ("spherical_mask", REL, "spherical_mask"), ("cylindrical_mask", REL, "cylindrical_mask"), ("get_correct_format", REL, "get_correct_format"),
     ("ellipsoid_shell_mask", REL, "ellipsoid_shell_mask"), ("ellipsoid_mask", REL, "ellipsoid_mask"), ("preprocess_params", REL, "preprocess_params"),
     ("cryomap_read", "cryocat/cryomap.py", "read"),
+    # reached by every constructor / algebra call through postprocess (work list 5): write_out must stay a no-op for output_name=None;
+    # cryomap.rotate is called by cryomask.rotate for non-zero angles only (outside the quantifier) - looked up so that the binding
+    # discipline (one definition, no wrapper/decorator) covers it, body kept as an anchor like cryomap.read
+    ("write_out", REL, "write_out"), ("cryomap_rotate", "cryocat/cryomap.py", "rotate"),
 ]
 
 
@@ -298,14 +350,68 @@ def _ordered(node):
         yield from _ordered(ch)
 
 
-def _canon(fn):
+LOG_ROOTS = ("print", "warnings", "logging", "logger", "log")
+
+
+def _strip(fn):
+    """H1: drop what a harmless edit may change - type annotations (`x: T = v` becomes `x = v`, a bare `x: T` disappears),
+    docstrings, the text of messages: `raise E(<anything>) [from e]` keeps only the exception TYPE, `assert c, msg` loses msg,
+    print/warnings/logging calls used as statements lose their arguments."""
+    class T(ast.NodeTransformer):
+        def visit_arg(self, n):
+            n.annotation = None
+            return n
+
+        def _fn(self, n):
+            n.returns = None
+            self.generic_visit(n)
+            if n.body and isinstance(n.body[0], ast.Expr) and isinstance(n.body[0].value, ast.Constant) and isinstance(n.body[0].value.value, str):
+                n.body = n.body[1:] or [ast.Pass()]
+            return n
+        visit_FunctionDef = visit_AsyncFunctionDef = _fn
+
+        def visit_AnnAssign(self, n):
+            self.generic_visit(n)
+            if n.value is None:
+                return None
+            return ast.copy_location(ast.Assign(targets=[n.target], value=n.value), n)
+
+        def visit_Raise(self, n):
+            e = n.exc
+            if isinstance(e, ast.Call):
+                e = e.func
+            return ast.copy_location(ast.Raise(exc=e, cause=None), n)
+
+        def visit_Assert(self, n):
+            self.generic_visit(n)
+            n.msg = None
+            return n
+
+        def visit_Expr(self, n):
+            self.generic_visit(n)
+            v = n.value
+            if isinstance(v, ast.Call):
+                root = v.func
+                while isinstance(root, ast.Attribute):
+                    root = root.value
+                if isinstance(root, ast.Name) and root.id in LOG_ROOTS:
+                    n.value = ast.Call(func=v.func, args=[], keywords=[])
+            return n
+    fn = T().visit(fn)
+    ast.fix_missing_locations(fn)
+    return fn
+
+
+def _canon(fn, back=None):
     """(signature, body) of a function as lists of strings.  Parameters keep their names (callers use them as
     keywords); every other name bound inside the function (assignment / loop / comprehension targets, inner
-    functions and their parameters) is replaced by v0, v1, ... in order of first binding, so renaming a local
-    variable changes nothing.  The body is the complete statement list: `if:`/`else:`/`end`, `for:` ... mark the
-    structure, docstrings are dropped."""
+    functions and their parameters) is replaced by v0, v1, ... in the order of its first BINDING occurrence, so renaming
+    a local variable changes nothing; a name that is bound but never read (`_`, `unused`, ...) is a discard: every such
+    occurrence is written `_` and takes no number (H2).  Annotations, docstrings and message texts are stripped first
+    (`_strip`, H1).  The body is the complete statement list: `if:`/`else:`/`end`, `for:` ... mark the structure.
+    `back` (optional dict) receives canonical name -> original identifier, for diagnostics."""
     import copy
-    fn = copy.deepcopy(fn)
+    fn = _strip(copy.deepcopy(fn))
     a = fn.args
     params = [x.arg for x in a.posonlyargs + a.args + a.kwonlyargs] + ([a.vararg.arg] if a.vararg else []) + ([a.kwarg.arg] if a.kwarg else [])
     pos = a.posonlyargs + a.args
@@ -314,11 +420,23 @@ def _canon(fn):
     sig += ["*" + a.vararg.arg] if a.vararg else []
     sig += [p.arg + ("" if d is None else "=" + core.norm_expr(d)) for p, d in zip(a.kwonlyargs, a.kw_defaults)]
     sig += ["**" + a.kwarg.arg] if a.kwarg else []
+    loaded = set()
+    for st in fn.body:
+        for n in _ordered(st):
+            if isinstance(n, ast.Name) and isinstance(n.ctx, ast.Load):
+                loaded.add(n.id)
+            elif isinstance(n, ast.AugAssign) and isinstance(n.target, ast.Name):      # `a += b` reads a
+                loaded.add(n.target.id)
+            elif isinstance(n, (ast.Global, ast.Nonlocal)):
+                loaded.update(n.names)
     names = {}
 
     def bind(n):
         if n not in params and n not in names:
-            names[n] = f"v{len(names)}"
+            if n in loaded:
+                names[n] = f"v{sum(1 for v in names.values() if v != '_')}"
+            else:
+                names[n] = "_"
 
     for st in fn.body:
         for n in _ordered(st):
@@ -330,6 +448,8 @@ def _canon(fn):
                 bind(n.arg)
             elif isinstance(n, ast.ExceptHandler) and n.name:
                 bind(n.name)
+    if back is not None:
+        back.update({v: k for k, v in names.items() if v != "_"})
     for st in fn.body:
         for n in _ordered(st):
             if isinstance(n, ast.Name) and n.id in names:
@@ -386,8 +506,10 @@ def _canon(fn):
     return sig, out
 
 
-def _blur_factor(body):
-    """structural: the multiplier X of np.ceil(radius + gaussian * X); a literal, or a local bound to a literal"""
+def _blur_factor(body, back=None):
+    """structural: the multiplier X of np.ceil(radius + gaussian * X); a literal, or a local bound to a literal.
+    `back`: canonical -> original identifier (H2: messages quote what the source says)"""
+    back = back or {}
     for s in body:
         m = re.search(r"np\.ceil\(radius\+gaussian\*([\w.]+)\)", s)
         if m:
@@ -398,12 +520,15 @@ def _blur_factor(body):
                     if mm:
                         x = mm.group(1); break
                 else:
-                    raise core.AnchorMissing(f"preprocess_params: {x} is not bound to a literal")
+                    bound = [t for t in body if t.startswith(x + "=")]
+                    raise core.AnchorMissing(f"preprocess_params: `{back.get(x, x)}` (the multiplier of gaussian in np.ceil(radius + gaussian * ...)) is not bound to "
+                                             f"a numeric literal" + (f"; found `{bound[0].replace(x, back.get(x, x), 1)}`" if bound else ""))
             try:
                 return Fraction(x)
             except Exception:
-                raise core.AnchorMissing(f"preprocess_params: multiplier {x!r} is not a number")
-    raise core.AnchorMissing("preprocess_params: no np.ceil(radius + gaussian * <factor>)")
+                raise core.AnchorMissing(f"preprocess_params: multiplier `{back.get(x, x)}` in np.ceil(radius + gaussian * ...) is not a number")
+    raise core.AnchorMissing("preprocess_params: the statement `np.ceil(radius + gaussian * <factor>)` was not found; body now reads: "
+                             + " | ".join(body)[:300])
 
 
 def _patterns(src):
@@ -436,14 +561,15 @@ def _lean_labels(labels):
 
 
 def translate(src):
-    sigs, bodies = {}, {}
+    sigs, bodies, backs = {}, {}, {}
     for key, rel, fn in FUNCS:
-        v = src.anchor(f"{fn}:signature+body", lambda: _canon(src.find(rel, fn)))
+        backs[key] = {}
+        v = src.anchor(f"{fn}:signature+body" if key != "cryomap_rotate" else "cryomap.rotate:signature+body", lambda: _canon(src.find(rel, fn), backs[key]))
         if isinstance(v, tuple):
             sigs[key], bodies[key] = v
         else:
             sigs[key], bodies[key] = DOC_SIG[key], DOC_BODY[key]      # documented value, the anchor is recorded as missing
-    bf = src.anchor("preprocess_params:blur_factor", lambda: str(_blur_factor(bodies["preprocess_params"])))
+    bf = src.anchor("preprocess_params:blur_factor", lambda: str(_blur_factor(bodies["preprocess_params"], backs["preprocess_params"])))
     fr = Fraction(bf) if bf is not None else Fraction(DOC_BLUR)
 
     def expansion():
@@ -554,17 +680,19 @@ def _cylinder(box, c, r, height):
 
 
 def _ellipsoid(box, c, radii):
-    """(inside, tie): sum((i-c)/r)^2 <= 1 decided in integers for integer radii > 0 on even boxes; tie = voxels exactly on
-    the surface for which IEEE double evaluation of the same sum (correctly rounded quotients, added z, y, x) lands above 1:
-    only there does the outcome depend on rounding"""
+    """(inside, tie): sum((i-c)/r)^2 <= 1 decided in integers on even boxes, for radii > 0 that are integers or half-integers (ints or
+    Fractions).  tie = voxels exactly on the surface where the outcome may depend on rounding: for integer radii those whose IEEE double
+    evaluation of the same sum (correctly rounded quotients, added z, y, x) lands above 1; for fractional radii every surface voxel"""
     i, j, k = np.indices(box, dtype=np.int64)
-    rx, ry, rz = [int(r) for r in radii]
-    a, b, cc = (i - c[0]) ** 2, (j - c[1]) ** 2, (k - c[2]) ** 2
-    lhs = a * (ry * ry * rz * rz) + b * (rx * rx * rz * rz) + cc * (rx * rx * ry * ry)
-    rhs = rx * rx * ry * ry * rz * rz
+    fr = [Fraction(r) for r in radii]
+    assert all(r > 0 and r.denominator <= 2 for r in fr), radii
+    (px, qx), (py, qy), (pz, qz) = [(r.numerator, r.denominator) for r in fr]
+    a, b, cc = (i - c[0]) ** 2 * (qx * qx), (j - c[1]) ** 2 * (qy * qy), (k - c[2]) ** 2 * (qz * qz)
+    lhs = a * (py * py * pz * pz) + b * (px * px * pz * pz) + cc * (px * px * py * py)
+    rhs = px * px * py * py * pz * pz
     on = lhs == rhs
-    if on.any():
-        fl = (cc.astype(np.float64) / float(rz * rz) + b.astype(np.float64) / float(ry * ry)) + a.astype(np.float64) / float(rx * rx)
+    if on.any() and qx == qy == qz == 1:
+        fl = (cc.astype(np.float64) / float(pz * pz) + b.astype(np.float64) / float(py * py)) + a.astype(np.float64) / float(px * px)
         tie = on & ~(fl <= 1.0)
     else:
         tie = on
@@ -584,13 +712,26 @@ def _grow(r, g, outwards):
     return r
 
 
-def _expected(case, blurred):
-    """(mask int8 array, ties bool array) demanded by the statement; blurred=True -> the extended (pre-blur) solid"""
+def _frac_radii(case):
+    """does the call ask for an ellipsoid with a non-integer radius?  (ellipsoid_mask with fractional radii; ellipsoid_shell_mask with an odd
+    thickness: radii r +- t/2)"""
+    if case["kind"] == "ellipsoid":
+        return case.get("radii") is not None and any(_fr(x).denominator != 1 for x in case["radii"])
+    if case["kind"] == "e_shell":
+        return (_fr(case["thick"]) / 2).denominator != 1
+    return False
+
+
+def _expected(case, blurred, doc=False):
+    """(mask int8 array, ties bool array).  doc=False, blurred=False: the solid demanded by the STATEMENT (analytic inequality with the
+    requested radii).  blurred=True: the extended (pre-blur) solid of the documented construction.  doc=True: the documented construction of
+    the code where it differs from the statement - ellipsoid radii are cut to integers by get_correct_format (`.astype(int)`), see C13-K3"""
     box, c = _defaults(case)
     kind = case["kind"]
     g = _fr(case["gauss"]) if blurred else Fraction(0)
     ow = case.get("outwards", True)
     no_ties = np.zeros(box, dtype=bool)
+    cut = doc or blurred
     if kind == "sphere":
         r = _fr(case["radius"]) if case.get("radius") is not None else Fraction(min(box) // 2)
         return _sphere(box, c, _grow(r, g, ow)).astype(np.int8), no_ties
@@ -600,8 +741,9 @@ def _expected(case, blurred):
         half = _grow(Fraction(h // 2), g, ow)
         return _cylinder(box, c, _grow(r, g, ow), 2 * int(half)).astype(np.int8), no_ties
     if kind == "ellipsoid":
-        rr = [int(_fr(x)) for x in case["radii"]] if case.get("radii") is not None else [b // 2 for b in box]
-        rr = [int(_grow(Fraction(x), g, ow)) for x in rr]
+        rr = [_fr(x) for x in case["radii"]] if case.get("radii") is not None else [Fraction(b // 2) for b in box]
+        if cut:
+            rr = [_grow(Fraction(int(x)), g, ow) for x in rr]
         m, t = _ellipsoid(box, c, rr)
         return m.astype(np.int8), t
     if kind == "s_shell":
@@ -609,10 +751,10 @@ def _expected(case, blurred):
         t = _fr(case["thick"]) / 2
         return (_sphere(box, c, r + t).astype(np.int8) - _sphere(box, c, r - t).astype(np.int8)), no_ties
     if kind == "e_shell":
-        rr = [int(_fr(x)) for x in case["radii"]] if case.get("radii") is not None else [b // 2 for b in box]
+        rr = [Fraction(int(_fr(x))) for x in case["radii"]] if case.get("radii") is not None else [Fraction(b // 2) for b in box]
         t = _fr(case["thick"]) / 2
-        mo, to = _ellipsoid(box, c, [int(x + t) for x in rr])
-        mi, ti = _ellipsoid(box, c, [int(x - t) for x in rr])
+        mo, to = _ellipsoid(box, c, [Fraction(int(x + t)) if cut else x + t for x in rr])
+        mi, ti = _ellipsoid(box, c, [Fraction(int(x - t)) if cut else x - t for x in rr])
         return (mo & ~mi).astype(np.int8), to | ti
     raise ValueError(kind)
 
@@ -665,7 +807,8 @@ def _bool_spec(fn, bs):
 def _box(rng, tier, even, soft=False):
     hi = {"quick": 16, "thorough": 48, "search": 14}[tier]
     if tier == "thorough" and (soft or rng.random() < 0.6):
-        hi = 28 if rng.random() < 0.8 else 36
+        k = rng.random()
+        hi = 28 if k < 0.8 else (36 if k < 0.96 or not soft else 48)
     if rng.random() < 0.12:
         n = rng.randint(6, hi)
         dims = [n, n, n]
@@ -704,9 +847,67 @@ def _centre(rng, box):
 
 
 def _gauss(rng):
+    """width 0 (62 %), the half-integer grid 0.5..3, or a decimal with 1-3 places in (0, 3] (H3: off the dyadic grid)"""
     if rng.random() < 0.62:
         return [0, 1], True
-    return [rng.choice([1, 2, 3, 4, 5, 6]), 2], rng.random() < 0.6
+    if rng.random() < 0.5:
+        return [rng.choice([1, 2, 3, 4, 5, 6]), 2], rng.random() < 0.6
+    n, d = rng.choice([(rng.randint(1, 30), 10), (rng.randint(1, 60), 20), (rng.randint(5, 300), 100), (rng.randint(50, 3000), 1000)])
+    return [n, d], rng.random() < 0.6
+
+
+def _grown_values(case):
+    """the numbers handed to preprocess_params by the constructor (radius / half height / radii), as Fractions"""
+    box = case["box"]
+    kind = case["kind"]
+    if kind == "sphere":
+        return [_fr(case["radius"]) if case.get("radius") is not None else Fraction(min(box) // 2)]
+    if kind == "cylinder":
+        r = _fr(case["radius"]) if case.get("radius") is not None else Fraction(min(box[:2]) // 2)
+        h = case["height"] if case.get("height") is not None else box[2]
+        return [r, Fraction(h // 2)]
+    if kind == "ellipsoid":
+        return [Fraction(int(_fr(x))) for x in case["radii"]] if case.get("radii") is not None else [Fraction(b // 2) for b in box]
+    return []
+
+
+def _ceil_is_stable(case):
+    """np.ceil(radius + gaussian * 5.0) in float64 equals the exact ceil(r + 5 sigma) of the decimal width the case names (it can differ
+    only when r + 5 sigma is an integer and the float product lands just above it: such a tie depends on rounding and is not generated)"""
+    g = case["gauss"]
+    if g[0] == 0 or not case.get("outwards", True):
+        return True
+    gf, gq = g[0] / g[1], _fr(g)
+    return all(math.ceil(float(r) + gf * 5.0) == math.ceil(r + 5 * gq) for r in _grown_values(case))
+
+
+FORM_KEYS = ("mask_size", "center", "radii", "radius", "height", "gaussian", "angles")
+
+
+def _forms(rng, case):
+    """H3: how the caller writes the arguments - tuples / numpy arrays / scalars (cubic boxes, equal radii) / numpy scalars instead of
+    lists and Python numbers; `angles` explicitly None / zero (list or array) where the constructor has the keyword.  A key that is
+    absent means: list / Python number / keyword omitted."""
+    f = {}
+    box, kind = case["box"], case["kind"]
+    if rng.random() < 0.45:
+        opts = ["tuple", "array"] + (["scalar", "scalar", "list1", "npint", "array1"] if len(set(box)) == 1 else [])
+        f["mask_size"] = rng.choice(opts)
+    if case.get("center") is not None and rng.random() < 0.4:
+        f["center"] = rng.choice(["tuple", "array"])
+    if case.get("radii") is not None and rng.random() < 0.45:
+        rr = [tuple(x) for x in case["radii"]]
+        f["radii"] = rng.choice(["tuple", "array"] + (["scalar", "npint"] if len(set(rr)) == 1 and rr[0][1] == 1 else []))
+    if case.get("radius") is not None and rng.random() < 0.25:
+        f["radius"] = "np"
+    if case.get("height") is not None and rng.random() < 0.25:
+        f["height"] = "np"
+    if case["gauss"][0] != 0 and rng.random() < 0.3:
+        f["gaussian"] = "int" if case["gauss"][0] % case["gauss"][1] == 0 and rng.random() < 0.5 else "np"
+    if kind in ("cylinder", "ellipsoid", "e_shell") and rng.random() < 0.3:
+        f["angles"] = rng.choice(["none", "zeros", "list"])
+    return f
+
 
 
 def _omit(rng, case):
@@ -758,6 +959,8 @@ def _shape_case(rng, tier, hard=False, box=None, kinds=None):
         case["height"] = None if k < 0.08 else (rng.randint(1, 5) if k < 0.3 else (rng.randint(1, box[2] + 8) if k < 0.85 else rng.randint(box[2], 2 * box[2] + 6)))
     elif kind == "ellipsoid":
         case["radii"] = None if rng.random() < 0.08 else [_radius(rng, box) for _ in range(3)]
+        if case["radii"] is not None and not soft and rng.random() < 0.15:      # H3: radii off the integer grid (half-integers)
+            case["radii"] = [[2 * r[0] + 1, 2] if rng.random() < 0.6 else r for r in case["radii"]]
     elif kind == "s_shell":
         r = None if rng.random() < 0.08 else _radius(rng, box)
         case["radius"] = r
@@ -771,7 +974,37 @@ def _shape_case(rng, tier, hard=False, box=None, kinds=None):
         t = rng.randint(1, max(1, min(2 * min(x[0] for x in rr) - 2, 8)))   # inner radii int(r - t/2) >= 1
         case["thick"] = [t, 1]
         case["outwards"] = True
+    for _ in range(20):
+        if _ceil_is_stable(case):
+            break
+        case["gauss"] = _gauss(rng)[0] if not hard else [0, 1]
+        if case["gauss"][0] == 0:
+            case["gauss"] = [1, 2]
+    else:
+        case["gauss"] = [1, 2]
     case["omit"] = _omit(rng, case)
+    if kinds is None:
+        case["forms"] = _forms(rng, case)
+    return case
+
+
+def _big_case(rng, soft):
+    """work list 5: one box with sizes up to the quantifier's bound 48 in every run (also in quick)"""
+    kind = rng.choice(KINDS if not soft else ["sphere", "cylinder", "ellipsoid"])
+    even = kind in ("ellipsoid", "e_shell")
+    box = [rng.choice([48, 48, rng.randint(40, 48), rng.randint(20, 48)]) for _ in range(3)]
+    if even:
+        box = [b - b % 2 for b in box]
+    case = _shape_case(rng, "thorough", hard=not soft, box=box, kinds=[kind])
+    if soft:
+        case["gauss"], case["outwards"] = [rng.choice([2, 3, 5, 6]), 2] if rng.random() < 0.5 else [rng.randint(30, 300), 100], rng.random() < 0.7
+        if kind == "ellipsoid" and case.get("radii") is not None:      # keep it off the open finding K2 (elongated cores)
+            m = max(4, min(x[0] for x in case["radii"]))
+            case["radii"] = [[min(x[0], 2 * m), 1] for x in case["radii"]]
+        if not _ceil_is_stable(case):
+            case["gauss"] = [3, 2]
+    case["omit"] = _omit(rng, case)
+    case["forms"] = _forms(rng, case)
     return case
 
 
@@ -792,6 +1025,7 @@ def _oversize_case(rng, tier):
         case["radius"] = [max(1, r - t // 2), 1]      # outer radius = r
         case["thick"] = [t, 1]
     case["omit"] = _omit(rng, case)
+    case["forms"] = _forms(rng, case)
     return case
 
 
@@ -809,6 +1043,7 @@ def _cyl34_case(rng, tier):
         c[2] = rng.randint(lo, hi)
     case["center"] = c
     case["omit"] = _omit(rng, case)
+    case["forms"] = _forms(rng, case)
     return case
 
 
@@ -816,10 +1051,13 @@ def _ell_out_case(rng, tier):
     """small ellipsoid, blurred outwards with a wide Gaussian, in a box that leaves room for the extension"""
     hi = {"quick": 16, "thorough": 36, "search": 14}[tier]
     box = [rng.choice([hi - 2, hi]) if rng.random() < 0.7 else 2 * rng.randint(4, hi // 2) for _ in range(3)]
-    case = _blank("ellipsoid", box, [rng.choice([3, 4, 5, 6]), 2], True)
+    case = _blank("ellipsoid", box, [rng.choice([3, 4, 5, 6]), 2] if rng.random() < 0.6 else [rng.randint(150, 300), 100], True)
     case["radii"] = [[rng.randint(1, 3), 1] for _ in range(3)]
+    if not _ceil_is_stable(case):
+        case["gauss"] = [3, 2]
     case["center"] = None if rng.random() < 0.5 else [b // 2 + rng.randint(-1, 1) for b in box]
     case["omit"] = _omit(rng, case)
+    case["forms"] = _forms(rng, case)
     return case
 
 
@@ -928,7 +1166,11 @@ def _algebra_case(rng, tier):
     else:
         shape = [rng.randint(2, hi) for _ in range(3)]
         masks = _pool(rng, shape, k, flavour)
-    return dict(t="algebra", fn=rng.choice(FNS), shape=shape, flavour=flavour, masks=masks, explicit_none=rng.random() < 0.3)
+    for m in masks:
+        if "bits" in m and rng.random() < 0.2:
+            m["layout"] = rng.choice(["F", "view"])
+    return dict(t="algebra", fn=rng.choice(FNS), shape=shape, flavour=flavour, masks=masks, explicit_none=rng.random() < 0.3,
+                container="tuple" if rng.random() < 0.2 else "list")
 
 
 def _session_case(rng, tier):
@@ -978,7 +1220,10 @@ def _session_case(rng, tier):
 
 
 def generate(rng, tier, n):
-    for _ in range(n):
+    for i in range(n):
+        if i < 2 and tier != "search":
+            yield _big_case(rng, soft=bool(i))
+            continue
         k = rng.random()
         if k < 0.56:
             yield _shape_case(rng, tier)
@@ -988,6 +1233,30 @@ def generate(rng, tier, n):
             yield _algebra_case(rng, tier)
         else:
             yield _session_case(rng, tier)
+
+
+def search_cases(rng, broken, anchors):
+    """inputs derived from what broke: for every constructor / function named by a broken obligation or a missing anchor a systematic sweep of
+    small boxes (every centre class, radii / heights from 1 to beyond the box, both edge modes), plus the shape names and all four set operations"""
+    names = " ".join([str(o.get("name", "")) + " " + str(o.get("detail", "")) for o in (broken or [])] +
+                     [str(a.get("name", "")) for a in (anchors or []) if not a.get("ok", True)]).lower()
+    kinds = [k for k, key in (("sphere", "spher"), ("cylinder", "cylind"), ("ellipsoid", "ellips"), ("s_shell", "shell"), ("e_shell", "shell")) if key in names]
+    if any(w in names for w in ("format", "preprocess", "postprocess", "gaussian", "write_out", "rotate", "defaults", "anchors_ok", "blur")) or not kinds:
+        kinds = list(KINDS)
+    for kind in kinds:
+        for _ in range(60):
+            yield _shape_case(rng, "search", box=_box(rng, "search", even=kind in ("ellipsoid", "e_shell")), kinds=[kind])
+        for _ in range(25):
+            c = _shape_case(rng, "search", box=_box(rng, "search", even=kind in ("ellipsoid", "e_shell")), kinds=[kind])
+            c["forms"] = _forms(rng, c)
+            yield c
+    if any(w in names for w in ("generat", "parse", "label", "pattern", "expansion")) or kinds == list(KINDS):
+        for kind in KINDS:
+            for _ in range(12):
+                yield _name_case(rng, "search", kind=kind)
+    if any(w in names for w in ("algebra", "union", "intersection", "subtraction", "difference", "read", "specvox")) or kinds == list(KINDS):
+        for _ in range(80):
+            yield _algebra_case(rng, "search")
 
 
 def shrink(case):
@@ -1027,6 +1296,10 @@ def shrink(case):
                     sl = [slice(None)] * 3; sl[ax] = slice(0, new[ax])
                     return dict(m, bits=[int(x) for x in a[tuple(sl)].ravel()])
                 yield dict(case, shape=new, masks=[cut(m) for m in ms])
+        if case.get("container") == "tuple":
+            yield dict(case, container="list")
+        if any(m.get("layout") for m in ms):
+            yield dict(case, masks=[{k: v for k, v in m.items() if k != "layout"} for m in ms])
         for i, m in enumerate(ms):
             if m["dtype"] != "float64":
                 yield dict(case, masks=ms[:i] + [dict(m, dtype="float64")] + ms[i + 1:])
@@ -1047,8 +1320,14 @@ def shrink(case):
         return
     even = case["kind"] in ("ellipsoid", "e_shell")
     box = case["box"]
+    if case.get("forms"):
+        yield dict(case, forms={})
+        for k in case["forms"]:
+            yield dict(case, forms={k: case["forms"][k]})
     if case["gauss"][0] != 0:
         yield dict(case, gauss=[0, 1], omit=[])
+        if case["gauss"][1] not in (1, 2):
+            yield dict(case, gauss=[max(1, round(2 * case["gauss"][0] / case["gauss"][1])), 2])
     if case.get("omit"):
         yield dict(case, omit=[])
     for ax in range(3):
@@ -1059,7 +1338,8 @@ def shrink(case):
                 c = case.get("center")
                 if c is not None:
                     c = list(c); c[ax] = min(c[ax], nb - 1)
-                yield dict(case, box=new, center=c)
+                fm = {k: v for k, v in (case.get("forms") or {}).items() if k != "mask_size" or v in ("tuple", "array")}
+                yield dict(case, box=new, center=c, forms=fm)
     if case.get("center") is not None and not case.get("extra"):
         yield dict(case, center=None)
     if case.get("radius") is not None and case["radius"][0] > case["radius"][1]:
@@ -1074,35 +1354,73 @@ def shrink(case):
         for i in range(3):
             if case["radii"][i][0] > 1:
                 rr = [list(x) for x in case["radii"]]; rr[i] = [max(1, rr[i][0] // 2), 1]
-                yield dict(case, radii=rr)
+                yield dict(case, radii=rr, forms={k: v for k, v in (case.get("forms") or {}).items() if k != "radii" or v in ("tuple", "array")})
 
 
 # ------------------------------------------------------------------ implementation
+def _as_form(v, form):
+    """a 3-vector the way the caller writes it"""
+    if v is None:
+        return None
+    if form == "tuple":
+        return tuple(v)
+    if form == "array":
+        return np.array(v)
+    if form == "scalar":
+        return v[0]
+    if form == "npint":
+        return np.int64(v[0])
+    if form == "list1":
+        return [v[0]]
+    if form == "array1":
+        return np.array([v[0]])
+    return list(v)
+
+
+def _num_form(x, form):
+    if x is None or form is None:
+        return x
+    if form == "np":
+        return np.int64(x) if isinstance(x, int) else np.float64(x)
+    if form == "int":
+        return int(x)
+    return x
+
+
 def _call_shape(cm, case, box_arg=None, centre_arg=None):
     kind, box = case["kind"], case["box"]
+    forms = case.get("forms") or {}
     g = _val(case["gauss"])
+    if g != 0 and forms.get("gaussian") != "int":
+        g = float(g)
+    g = _num_form(g, forms.get("gaussian"))
     ow = case.get("outwards", True)
     omit = set(case.get("omit") or [])
-    size = list(box) if box_arg is None else box_arg
+    size = _as_form(list(box), forms.get("mask_size")) if box_arg is None else box_arg
     c = case.get("center")
-    kw = dict(center=(list(c) if c is not None else None) if centre_arg is None else centre_arg, gaussian=g)
+    kw = dict(center=_as_form(c, forms.get("center")) if centre_arg is None else centre_arg, gaussian=g)
     default = dict(center=None, gaussian=0, gaussian_outwards=True, radius=None, height=None, radii=None)
+    radius = _num_form(_val(case.get("radius")), forms.get("radius"))
+    height = _num_form(case.get("height"), forms.get("height"))
+    radii = _as_form([_val(x) for x in case["radii"]], forms.get("radii")) if case.get("radii") is not None else None
     if kind == "sphere":
         fn, args = cm.spherical_mask, (size,)
-        kw.update(radius=_val(case.get("radius")), gaussian_outwards=ow)
+        kw.update(radius=radius, gaussian_outwards=ow)
     elif kind == "cylinder":
         fn, args = cm.cylindrical_mask, (size,)
-        kw.update(radius=_val(case.get("radius")), height=case.get("height"), gaussian_outwards=ow)
+        kw.update(radius=radius, height=height, gaussian_outwards=ow)
     elif kind == "ellipsoid":
         fn, args = cm.ellipsoid_mask, (size,)
-        kw.update(radii=[_val(x) for x in case["radii"]] if case.get("radii") is not None else None, gaussian_outwards=ow)
+        kw.update(radii=radii, gaussian_outwards=ow)
     elif kind == "s_shell":
         fn, args = cm.spherical_shell_mask, (size, _val(case["thick"]))
-        kw.update(radius=_val(case.get("radius")))
+        kw.update(radius=radius)
     elif kind == "e_shell":
-        fn, args = cm.ellipsoid_shell_mask, (size, _val(case["thick"]), [_val(x) for x in case["radii"]])
+        fn, args = cm.ellipsoid_shell_mask, (size, _val(case["thick"]), radii)
     else:
         raise ValueError(kind)
+    if forms.get("angles") and kind in ("cylinder", "ellipsoid", "e_shell"):
+        kw["angles"] = {"none": None, "zeros": np.zeros(3), "list": [0, 0, 0]}[forms["angles"]]
     for k in omit:
         if k in kw:
             if not (kw[k] is None if default[k] is None else kw[k] == default[k]):
@@ -1157,7 +1475,15 @@ def _run_name(cm, case):
 def _build_mask(cm, m, shape):
     if "ctor" in m:
         return np.asarray(_call_shape(cm, m["ctor"]))
-    return np.array([b2f(b) for b in m["bits"]], dtype=np.float64).reshape(shape).astype(m["dtype"])
+    a = np.array([b2f(b) for b in m["bits"]], dtype=np.float64).reshape(shape).astype(m["dtype"])
+    lay = m.get("layout")
+    if lay == "F":                       # H3: a transposed / Fortran-ordered volume
+        a = np.asfortranarray(a)
+    elif lay == "view":                  # a strided view into a larger volume (every second slice of the caller's array)
+        big = np.zeros((2 * shape[0], shape[1], shape[2]), dtype=a.dtype)
+        big[::2] = a
+        a = big[::2]
+    return a
 
 
 def _bits(a):
@@ -1247,7 +1573,7 @@ def run_impl(case):
     if case["t"] == "algebra":
         shp = case["shape"]
         masks = [_build_mask(cm, m, shp) for m in case["masks"]]
-        return _call_algebra(cm, case["fn"], list(masks), masks, case.get("explicit_none", False))[0]
+        return _call_algebra(cm, case["fn"], tuple(masks) if case.get("container") == "tuple" else list(masks), masks, case.get("explicit_none", False))[0]
     if case["t"] == "session":
         return _run_session(cm, case)
     raise ValueError(case["t"])
@@ -1349,13 +1675,20 @@ def _judge_hard(case, obs, model, out, label, spec_ok=True):
         return
     impl = _str2arr(obs["mask"], box)
     exp, ties = _expected(case, blurred=False)
+    frac = _frac_radii(case)
+    dexp, dties = _expected(case, blurred=False, doc=True) if frac else (exp, ties)
     if spec_ok:
         v, n = _first_diff(impl, exp, ties)
         if v is not None:
             c = _defaults(case)[1]
-            out.append(dict(kind="spec", clause=f"{label}-membership",
-                            detail=f"{n} voxel(s) differ from the analytic inequality; first {v}: code {int(impl[v])}, statement {int(exp[v])} "
-                                   f"(box {box}, centre {c}, radius {case.get('radius')}, height {case.get('height')}, radii {case.get('radii')}, thick {case.get('thick')})"))
+            det = (f"{n} voxel(s) differ from the analytic inequality; first {v}: code {int(impl[v])}, statement {int(exp[v])} "
+                   f"(box {box}, centre {c}, radius {case.get('radius')}, height {case.get('height')}, radii {case.get('radii')}, thick {case.get('thick')})")
+            if frac and _first_diff(impl, dexp, dties)[0] is None:
+                # exactly the solid with every radius cut to its integer part: the open finding C13-K3 (and nothing else)
+                out.append(dict(kind="spec", clause="ellipsoid-radii-truncated", known="C13-K3",
+                                detail="non-integer ellipsoid radii are cut to their integer part (get_correct_format .astype(int)): " + det))
+            else:
+                out.append(dict(kind="spec", clause=f"{label}-membership", detail=det))
     if "error" in model:
         out.append(dict(kind="corr", clause="model-rejects", detail=str(model)))
         return
@@ -1364,15 +1697,15 @@ def _judge_hard(case, obs, model, out, label, spec_ok=True):
         out.append(dict(kind="corr", clause="model-box", detail=f"model box {model['box']} vs {box}"))
         return
     mt = _str2arr(model["ties"], box).astype(bool) if model.get("ties") else np.zeros(box, dtype=bool)
-    if (ties & ~mt).any():
+    if (dties & ~mt).any():
         out.append(dict(kind="corr", clause="tie-sets", detail="a voxel where float and exact evaluation differ is not on the model's exact surface"))
-    v, n = _first_diff(impl, mm, ties)
+    v, n = _first_diff(impl, mm, dties)
     if v is not None:
         out.append(dict(kind="corr", clause=f"{label}-vs-model", detail=f"{n} voxel(s) differ from the Lean model; first {v}: code {int(impl[v])}, model {int(mm[v])}"))
     if spec_ok:
-        v, n = _first_diff(mm, exp)
+        v, n = _first_diff(mm, dexp)
         if v is not None:
-            out.append(dict(kind="corr", clause="model-vs-statement", detail=f"Lean model and the independent evaluation differ at {v} ({n} voxels)"))
+            out.append(dict(kind="corr", clause="model-vs-statement", detail=f"Lean model and the independent evaluation {'of the documented construction ' if frac else ''}differ at {v} ({n} voxels)"))
 
 
 def _judge_name(case, obs, resps):
@@ -1439,7 +1772,7 @@ def _judge_shape(case, obs, model):
                 core_finding = dict(kind="spec", clause="soft-core", detail=f"{case['kind']} blurred outwards, sigma={sigma}: core voxel {v} has value {float(a[v])!r} "
                                     f"(1 - value = {1 - a[v]:.3g} > 1e-3; box {box}, radius {case.get('radius')}, height {case.get('height')}, radii {case.get('radii')})")
                 out.append(core_finding)
-    pre_exp, t2 = _expected(case, blurred=True)
+    pre_exp, t2 = _expected(case, blurred=True, doc=True)
     if core_finding is not None and case["kind"] == "ellipsoid":
         # is this the documented construction (every radius enlarged to ceil(r + 5 sigma), then the library's Gaussian)?  Then it is
         # the open finding C13-K2: for elongated ellipsoids the enlarged ellipsoid does not contain the 5-sigma neighbourhood of the core
@@ -1497,6 +1830,9 @@ def _judge_algebra(fn, shp, masks_spec, obs, model, extra=None):
         if "ctor" in m:
             exp, ties = _expected(m["ctor"], blurred=False)
             v, n = _first_diff(ins[i], exp.astype(np.float64), ties)
+            if v is not None and _frac_radii(m["ctor"]):      # C13-K3 is reported by the shape cases; here only other deviations count
+                dexp, dties = _expected(m["ctor"], blurred=False, doc=True)
+                v, n = _first_diff(ins[i], dexp.astype(np.float64), dties)
             if v is not None:
                 out.append(dict(kind="spec", clause=f"{m['ctor']['kind']}-membership", detail=f"input {i} built by the library's constructor differs from the analytic shape at {v} ({n} voxels)"))
     if obs["mutated"]:
@@ -1573,7 +1909,9 @@ def judge(case, obs, resps):
 
 def classify(case, obs, finding):
     """open known findings: C13-K1 (difference of n != 2 masks is union minus intersection, not XOR),
-    C13-K2 (outwards-blurred elongated ellipsoid built exactly as documented loses more than 1e-3 in its core)"""
+    C13-K2 (outwards-blurred elongated ellipsoid built exactly as documented loses more than 1e-3 in its core),
+    C13-K3 (proposed: non-integer ellipsoid radii - also r +- t/2 of a shell of odd thickness - are cut to their integer part); each rule
+    is an equality with the documented construction, set where the finding is made"""
     return finding.get("known")
 
 
@@ -1604,7 +1942,7 @@ def nontrivial(case, obs):
 
 
 def _bucket(n):
-    return "6-10" if n <= 10 else ("11-16" if n <= 16 else ("17-28" if n <= 28 else "29-48"))
+    return "6-10" if n <= 10 else ("11-16" if n <= 16 else ("17-28" if n <= 28 else ("29-39" if n <= 39 else "40-48")))
 
 
 def _stats_shape(case, obs, resp):
@@ -1616,12 +1954,17 @@ def _stats_shape(case, obs, resp):
     st["centre"] = "default" if c is None else ("outside-box" if case.get("extra") else ("on-face" if any(x == 0 or x == b - 1 for x, b in zip(c, box)) else "interior"))
     st["gauss"] = str(_val(case["gauss"]))
     st["omitted_keywords"] = list(case.get("omit") or []) or ["none"]
+    st["argument_forms"] = [f"{k}:{v}" for k, v in sorted((case.get("forms") or {}).items())] or ["lists / Python numbers"]
+    if case["gauss"][0] != 0:
+        st["gauss_grid"] = "half-integer" if case["gauss"][1] in (1, 2) else "decimal"
     if case["gauss"][0] != 0:
         st["edge_mode"] = ("outwards" if case.get("outwards", True) else "centred") + ("(default)" if "gaussian_outwards" in (case.get("omit") or []) else "")
     if case["kind"] in ("sphere", "cylinder") and case.get("radius") is not None:
         r = _fr(case["radius"])
         st["radius_vs_box"] = "beyond" if r >= max(box) else ("> half of min" if 2 * r > min(box) else "inside")
         st["radius_grid"] = "integer" if case["radius"][1] == 1 else "fractional"
+    if case["kind"] in ("ellipsoid", "e_shell"):
+        st["ellipsoid_radii_grid"] = "non-integer" if _frac_radii(case) else "integer"
         if case["kind"] == "sphere" and r >= max(box) and c is not None:
             far2 = sum(max(x, b - 1 - x) ** 2 for x, b in zip(c, box))
             st["oversize_sphere"] = "some corner outside" if r * r < far2 else "whole box inside"
@@ -1667,6 +2010,8 @@ def stats(case, obs, resps):
         st["flavour"] = case["flavour"]
         st["masks_from_constructors"] = sum(1 for m in case["masks"] if "ctor" in m)
         st["output_name"] = "explicit None" if case.get("explicit_none") else "omitted"
+        st["mask_list_container"] = case.get("container", "list")
+        st["mask_memory_layout"] = sorted({m.get("layout", "C") for m in case["masks"] if "bits" in m}) or ["constructor"]
         return st
     if case["t"] == "name":
         st["kind"] = case["kind"]
@@ -1703,11 +2048,13 @@ def sample_view(case):
 
 
 def probes(rng):
-    """the recorded assumptions about skimage.filters.gaussian, probed on an impulse; the weight beyond 5 sigma is the hypothesis
-    `tail <= coreTol` of the Lean theorem soft_sphere_core_within_tol / soft_cylinder_core_within_tol"""
+    """the recorded assumptions about skimage.filters.gaussian, probed on an impulse (half-integer widths and three random decimal ones):
+    the library's kernel is the model's kernel.  The weight beyond 5 sigma is proved for the model kernel (gaussian_kernel_tail);
+    measuring it on the library's kernel is a cross-check"""
     from skimage import filters
     out = []
-    for sigma in (0.5, 1.0, 1.5, 2.0, 2.5, 3.0):
+    extra = sorted({rng.randint(13, 299) / 100 for _ in range(3)} - {0.5, 1.0, 1.5, 2.0, 2.5, 3.0})
+    for sigma in (0.5, 1.0, 1.5, 2.0, 2.5, 3.0) + tuple(extra):
         rad = int(4 * sigma + 0.5)
         n = 2 * rad + 9
         imp = np.zeros((n, n, n)); imp[n // 2, n // 2, n // 2] = 1.0
@@ -1727,7 +2074,7 @@ def probes(rng):
         i, j, l = np.indices(k.shape)
         d2 = (i - n // 2) ** 2 + (j - n // 2) ** 2 + (l - n // 2) ** 2
         tail = float(k[d2 > (5 * sigma) ** 2].sum())
-        out.append(dict(name=f"gaussian-tail-beyond-5-sigma-{sigma}", ok=bool(tail < CORE_TOL), detail=f"kernel weight at offsets farther than 5*sigma = {tail:.3g} (must be < 1e-3)"))
+        out.append(dict(name=f"gaussian-tail-beyond-5-sigma-{sigma}", ok=bool(tail < CORE_TOL), detail=f"kernel weight at offsets farther than 5*sigma = {tail:.3g} (proved <= 1e-3 for the model kernel)"))
     return out
 
 
@@ -1736,14 +2083,20 @@ LEVEL_TEXT = ("Lean 4 theorems about an executable model of cryomask's hard-edge
               "boxes (sum((i-c)/r)^2 <= 1), shells = outer and not inner; parse_shape_string(format(kind, specs)) = (kind, specs) and generate_mask = the "
               "analytic shape on the documented box size for every shape name; union/intersection/subtraction/difference of any number of {0,1} masks = "
               "OR / AND / AND-NOT / (OR and not AND); the latter is XOR exactly for two masks (proved: it is NOT the XOR of one or of three masks), results "
-              "in [0,1] for arbitrary real inputs; a filter with non-negative unit-sum weights and nearest-voxel boundary applied to the model's own pre-blur "
-              "sphere/cylinder of an outwards blur leaves every core voxel within 1e-3 of 1 when the kernel weight beyond 5 sigma is at most 1e-3 (the enlarged "
-              "solid contains the 5-sigma neighbourhood of the core: proved for spheres and cylinders, refuted for ellipsoids). Tied to the source by the "
-              "complete normalised bodies and signatures of 17 functions and by a per-voxel differential run of the real functions against the model.")
-LEVEL_NOTE = ("the Gaussian filter (skimage) is an external service: its kernel (non-negative, unit sum, product of exp weights, weight beyond 5 sigma < 1e-3) "
-              "is probed each run and compared at sampled voxels with the Lean kernel model; 'never modify their inputs' is validated at run time only; numpy "
-              "float comparisons are assumed exact on the integer/dyadic grids generated; ellipsoid voxels exactly on the surface where double rounding "
-              "decides are excluded as ties. OPEN: C13-K1 (difference of n != 2 masks is union minus intersection, not XOR), C13-K2 (outwards-blurred "
-              "elongated ellipsoids lose more than 1e-3 in the core)")
+              "in [0,1] for arbitrary real inputs. Soft edges: the model's Gaussian kernel (exp(-0.5/sigma^2 t^2)/sum over |t| <= int(4 sigma + 0.5), real "
+              "exponential, nearest-voxel boundary) has non-negative weights of total 1 and, for EVERY width 0 < sigma <= 3, at most 1e-3 of its weight beyond "
+              "5 sigma (gaussian_kernel_tail); hence the model's pre-blur sphere / cylinder of an outwards blur, filtered with that kernel, stays in [0,1] and "
+              "leaves every voxel of the requested core within 1e-3 of 1 (soft_sphere_core_gaussian, soft_cylinder_core_gaussian: no hypothesis about the "
+              "kernel left). For ellipsoids the inclusion behind this is refuted and a concrete core voxel is proved to lose MORE than 1e-3 "
+              "(ellipsoid_outwards_core_deficit: the open finding C13-K2, about the model). Tied to the source by the complete normalised bodies and "
+              "signatures of 19 functions (annotations, docstrings and message texts stripped) and by a per-voxel differential run of the real functions "
+              "against the model.")
+LEVEL_NOTE = ("the Gaussian filter (skimage) is an external service: that its kernel IS the model's kernel (product of the 1-D weights, support, unit sum) "
+              "is probed each run and compared at sampled voxels with the Lean kernel model evaluated with Float.exp; the theorems use Real.exp; 'never modify "
+              "their inputs' is validated at run time only; numpy float comparisons are assumed exact on the integer/dyadic grids generated (decimal Gaussian "
+              "widths: np.ceil(r + 5 sigma) is generated only where float64 and exact arithmetic agree); ellipsoid voxels exactly on the surface where double "
+              "rounding decides are excluded as ties. OPEN: C13-K1 (difference of n != 2 masks is union minus intersection, not XOR; Lean: "
+              "difference_xor_reading_fails), C13-K2 (outwards-blurred elongated ellipsoids lose more than 1e-3 in the core; Lean: inclusion refuted in "
+              "ellipsoid_outwards_not_dilation, deficit > 1e-3 proved for the witness in ellipsoid_outwards_core_deficit)")
 TECHNIQUE = "Lean 4 proof (order/field reasoning, list induction) + re-extracted source statements + per-voxel differential correspondence"
 DESIGN_REF = "DESIGN.md section 4, C13"
